@@ -301,7 +301,7 @@ def run(prop, tier, seed, units, work, t0):
         from . import replay
         found = None
         try:
-            found = replay.search(prop, [o.id for o in new_fail], work)
+            found = replay.search(prop, new_fail, work)
         except Exception as e:
             print('[%s] replay search did not run: %s' % (prop, e))
         if not found:
